@@ -8,6 +8,7 @@ CONSTANTS
   Faults = FALSE
   Nested = FALSE
   Shared = FALSE
+  Tagger = "none"
 INIT Init
 NEXT Next
 INVARIANT VariantChoice
